@@ -6,6 +6,8 @@
 #
 #############################################################################
 
+import urllib.parse
+
 from .dash_option import DashOption
 from .types import OptionUsage
 
@@ -63,7 +65,9 @@ NTPSources = DashOption(
     title='NTP time servers',
     description='List of servers to use for NTP requests',
     from_string=DashOption.list_without_none_from_string,
-    to_string=lambda servers: ','.join(servers),
+    # the value is copied into URLs (patch location, time source): quote it
+    to_string=lambda servers: ','.join(
+        urllib.parse.quote(srv, safe='') for srv in servers),
     input_type='select',
     cgi_name='ntp_servers',
     cgi_type=f'({"|".join(POOL_NAMES)}|<server>,..)',
